@@ -285,47 +285,59 @@ impl Prop for C03R {
         json!({"kind": "raw-bytes", "identity": ctx.identity, "case": exec::case_json(&cfg, &input), "traits": failure_traits(&cfg, &input)})
     }
     fn fuzz_seeds(&self, seed: u64) -> Vec<Vec<u8>> {
-        // golden inputs: delta's own example files and generated grep / rg --json / blame streams,
-        // each under a few option sets
-        let mut out = Vec::new();
-        let mut bodies: Vec<Vec<u8>> = Vec::new();
-        let ex = std::path::Path::new(env!("DUT_SRC")).join("../etc/examples");
-        if let Ok(rd) = std::fs::read_dir(&ex) {
-            let mut files: Vec<_> = rd.flatten().map(|e| e.path()).collect();
-            files.sort();
-            for p in files {
-                if let Ok(b) = std::fs::read(&p) {
-                    if b.len() <= 6000 {
-                        bodies.push(b);
-                    } else {
-                        bodies.push(b[..6000].to_vec());
-                    }
-                }
-            }
-        }
-        for k in 0..6u32 {
-            let mk = |f: fn(&mut Tape) -> Vec<u8>| {
-                let mut t = Tape::new((0..400u32).map(|i| (fnv(&[k as u8, (i & 255) as u8, (i >> 8) as u8, 7]) >> 16) as u32).collect());
-                f(&mut t)
-            };
-            bodies.push(mk(other::grep_stream));
-            bodies.push(mk(other::rg_json_stream));
-            bodies.push(mk(other::blame_stream));
-        }
-        for (i, b) in bodies.iter().enumerate() {
-            for k in 0..3u64 {
-                let mut v: Vec<u8> = Vec::with_capacity(RAW_HEADER * 4 + b.len());
-                for j in 0..RAW_HEADER as u64 {
-                    let h = if k == 0 { 0 } else { (fnv(&[(seed & 255) as u8, i as u8, k as u8, j as u8, 3]) >> 20) as u32 };
-                    v.extend_from_slice(&h.to_le_bytes());
-                }
-                v.extend_from_slice(b);
-                out.push(v);
-            }
-        }
-        out
+        raw_seeds(seed, false)
     }
     fn fuzz_decoders(&self) -> Vec<&'static str> {
         Vec::new()
     }
+}
+
+/// golden inputs for the raw decoders: delta's own example files and generated grep / rg --json /
+/// blame streams, each under a few option-set headers
+pub fn raw_seeds(seed: u64, strip_escapes: bool) -> Vec<Vec<u8>> {
+    // golden inputs: delta's own example files and generated grep / rg --json / blame streams,
+    // each under a few option sets
+    let mut out = Vec::new();
+    let mut bodies: Vec<Vec<u8>> = Vec::new();
+    let ex = std::path::Path::new(env!("DUT_SRC")).join("../etc/examples");
+    if let Ok(rd) = std::fs::read_dir(&ex) {
+        let mut files: Vec<_> = rd.flatten().map(|e| e.path()).collect();
+        files.sort();
+        for p in files {
+            if let Ok(b) = std::fs::read(&p) {
+                if b.len() <= 6000 {
+                    bodies.push(b);
+                } else {
+                    bodies.push(b[..6000].to_vec());
+                }
+            }
+        }
+    }
+    for k in 0..6u32 {
+        let mk = |f: fn(&mut Tape) -> Vec<u8>| {
+            let mut t = Tape::new((0..400u32).map(|i| (fnv(&[k as u8, (i & 255) as u8, (i >> 8) as u8, 7]) >> 16) as u32).collect());
+            f(&mut t)
+        };
+        bodies.push(mk(other::grep_stream));
+        bodies.push(mk(other::rg_json_stream));
+        bodies.push(mk(other::blame_stream));
+    }
+    if strip_escapes {
+        // decoders whose domain excludes escape sequences: keep the visible text only
+        for b in bodies.iter_mut() {
+            *b = crate::term::visible_text(b).into_bytes();
+        }
+    }
+    for (i, b) in bodies.iter().enumerate() {
+        for k in 0..3u64 {
+            let mut v: Vec<u8> = Vec::with_capacity(RAW_HEADER * 4 + b.len());
+            for j in 0..RAW_HEADER as u64 {
+                let h = if k == 0 { 0 } else { (fnv(&[(seed & 255) as u8, i as u8, k as u8, j as u8, 3]) >> 20) as u32 };
+                v.extend_from_slice(&h.to_le_bytes());
+            }
+            v.extend_from_slice(b);
+            out.push(v);
+        }
+    }
+    out
 }
